@@ -1,18 +1,21 @@
 //go:build verif
 
-// Driver for C27: runs the real (unexported) sanitizeDesktopFile on generated desktop file contents for snaps with and
-// without an instance key and varied desktop file names, and prints input + returned bytes as Coq terms of type
-// V.models.Desktop.case. The installed file name is computed exactly as deriveDesktopFilesContent does.
+// Driver for C27: writes a generated desktop file into meta/gui of a snap (with or without an instance key, varied file
+// names) under a scratch root directory, runs the real (unexported) deriveDesktopFilesContent — hence the real
+// sanitizeDesktopFile with the installed name the production code computes, and the name filter in front of it — and prints
+// input + produced bytes (or the absence of an entry) as Coq terms of type V.models.Desktop.case.
 package wrappers
 
 import (
 	"fmt"
+	"os"
 	"path/filepath"
 	"sort"
 	"strings"
 	"testing"
 
 	"github.com/snapcore/snapd/dirs"
+	"github.com/snapcore/snapd/osutil"
 	"github.com/snapcore/snapd/snap"
 	"github.com/snapcore/snapd/zzverif/vh"
 )
@@ -96,8 +99,10 @@ func c27Gen(r *vh.Rand, tier string, n int) []c27In {
 		{"foo", "k1", []string{"foo", "bar"}}, {"hello-world", "", []string{"hello-world", "h2"}}, {"foo", "", nil}, {"a0", "x", []string{"a0"}},
 	}
 	files := []string{"app.desktop", "foo.desktop", "bar.desktop", "other.desktop", "app", "app.v2.desktop", ".desktop", "h2.desktop",
-		"a b.desktop", "a sh -c id x.desktop", "a\tb.desktop", "a\nExec=sh -c id\nX-Y.desktop", "x=y.desktop", "${SNAP}.desktop", "app .desktop", "a0.desktop"}
-	// the documented finding, as a fixed first case
+		"a b.desktop", "a sh -c id x.desktop", "a\tb.desktop", "a\nExec=sh -c id\nX-Y.desktop", "x=y.desktop", "${SNAP}.desktop", "app .desktop", "a0.desktop",
+		"a\" sh -c id \"x.desktop", "a\\\" sh x.desktop", "100%U.desktop", "a%%b c.desktop", "`id`.desktop", "$(id).desktop", "a'b.desktop",
+		"x${SNAP}\"y z.desktop", "a\x7fb.desktop", "a\xc2\x85b.desktop", "a\x01.desktop", "a\xc2b \xff.desktop", "app.desktop.bak", "a;b|c&d.desktop"}
+	// regression case of the repaired finding (commit 0f3f7c0): the file name must stay ONE word of the command line
 	ins = append(ins, c27In{Snap: "foo", Apps: []string{"app"}, File: "a sh -c id x.desktop",
 		Content: c27B("[Desktop Entry]\nName=foo\nExec=not-the-app %U\nExec=foo.app %U\n")})
 	ins = append(ins, c27In{Snap: "foo", Apps: []string{"app"}, File: "app.desktop",
@@ -105,7 +110,7 @@ func c27Gen(r *vh.Rand, tier string, n int) []c27In {
 	for i := 0; i < n; i++ {
 		s := snaps[r.Intn(len(snaps))]
 		in := c27In{Snap: s.name, Key: s.key, Apps: s.apps}
-		if r.Chance(4, 5) {
+		if r.Chance(3, 5) {
 			in.File = files[r.Intn(8)] // ordinary names most of the time
 		} else {
 			in.File = files[r.Intn(len(files))]
@@ -133,26 +138,61 @@ func c27Gen(r *vh.Rand, tier string, n int) []c27In {
 	return ins
 }
 
+var c27Root string
+
 func c27Exec(in c27In) vh.Out {
+	if c27Root == "" {
+		d, err := os.MkdirTemp("", "c27")
+		if err != nil {
+			panic(err)
+		}
+		c27Root = d
+		dirs.SetRootDir(d)
+	}
 	info := c27Info(in)
-	// as deriveDesktopFilesContent
-	base := fmt.Sprintf("%s_%s", info.DesktopPrefix(), in.File)
-	installed := filepath.Join(dirs.SnapDesktopFilesDir, base)
-	out := sanitizeDesktopFile(info, installed, []byte(in.Content))
+	gui := filepath.Join(info.MountDir(), "meta", "gui")
+	if err := os.RemoveAll(gui); err != nil {
+		panic(err)
+	}
+	if err := os.MkdirAll(gui, 0755); err != nil {
+		panic(err)
+	}
+	if err := os.WriteFile(filepath.Join(gui, in.File), []byte(in.Content), 0644); err != nil {
+		panic(err)
+	}
+	content, err := deriveDesktopFilesContent(info)
+	if err != nil {
+		panic(err)
+	}
+	if len(content) > 1 {
+		panic("more than one desktop file derived")
+	}
+	var out []byte
+	have := false
+	for name, st := range content {
+		if name != info.DesktopPrefix()+"_"+in.File {
+			panic("unexpected entry " + name)
+		}
+		out, have = st.(*osutil.MemoryFileState).Content, true
+	}
 	apps := append([]string{}, in.Apps...)
 	sort.Strings(apps)
 	var capps []string
 	for _, a := range apps {
 		capps = append(capps, vh.CoqBytes(a))
 	}
-	coq := fmt.Sprintf("(Case (mkInfo %s %s %s %s %s) %s %s %s)", vh.CoqBytes(info.SnapName()), vh.CoqBytes(info.InstanceKey), vh.CoqList(capps),
-		vh.CoqBytes(dirs.SnapBinariesDir), vh.CoqBytes(info.MountDir()), vh.CoqBytes(installed), vh.CoqBytes(string(in.Content)), vh.CoqBytes(string(out)))
+	coq := fmt.Sprintf("(Case (mkInfo %s %s %s %s %s) %s %s %s %s)", vh.CoqBytes(info.SnapName()), vh.CoqBytes(info.InstanceKey), vh.CoqList(capps),
+		vh.CoqBytes(dirs.SnapBinariesDir), vh.CoqBytes(info.MountDir()), vh.CoqBytes(dirs.SnapDesktopFilesDir), vh.CoqBytes(in.File),
+		vh.CoqBytes(string(in.Content)), vh.CoqOpt(have, vh.CoqBytes(string(out))))
 	tags := []string{}
 	if in.Key != "" {
 		tags = append(tags, "instance-key")
 	}
-	if strings.ContainsAny(in.File, " \t\n") {
-		tags = append(tags, "file-name-with-space")
+	if strings.ContainsAny(in.File, " \t\n\"'$%") {
+		tags = append(tags, "file-name-with-reserved-byte")
+	}
+	if !have {
+		tags = append(tags, "file-skipped")
 	}
 	if strings.Contains(string(out), "Exec=") {
 		tags = append(tags, "exec-kept")
@@ -163,8 +203,16 @@ func c27Exec(in c27In) vh.Out {
 	if strings.Contains(string(out), "X-SnapInstanceName=") {
 		tags = append(tags, "tagged")
 	}
-	return vh.Out{Observed: map[string]interface{}{"installed": installed, "out": string(out)}, Coq: coq,
+	return vh.Out{Observed: map[string]interface{}{"derived": have, "out": string(out)}, Coq: coq,
 		NonTrivial: len(out) > 0, Tags: tags}
 }
 
-func TestVerifC27Sanitize(t *testing.T) { vh.Run(c27Gen, c27Exec) }
+func TestVerifC27Sanitize(t *testing.T) {
+	defer func() {
+		if c27Root != "" {
+			os.RemoveAll(c27Root)
+			dirs.SetRootDir("")
+		}
+	}()
+	vh.Run(c27Gen, c27Exec)
+}
